@@ -902,7 +902,9 @@ class BaseCfgLine(object):
                     new_family_indent = self.classify_family_indent(newobj.text)
                     if this_indent == new_family_indent:
                         if len(self.siblings) > 0:
-                            _idx = self.siblings[-1].linenum + 1
+                            # insert after the last sibling's whole family
+                            # so none of its descendants is re-parented
+                            _idx = self.siblings[-1].family_endpoint + 1
                         else:
                             _idx = self.last_family_linenum + 1
                     elif this_indent + 1 == new_family_indent:
